@@ -89,6 +89,11 @@ def stress_families():
         ("long-list", lambda n: "num in {" + " ".join(str(i) for i in range(n)) + "}"),
         ("long-string", lambda n: "str == \"" + "a" * (10 * n) + "\""),
         ("unclosed-deep", lambda n: "(" * n),
+        # nesting inside a regex literal is bounded by the regex parser's own nest limit, not by the filter's
+        ("deep-regex-groups", lambda n: "str matches \"" + "(" * n + "a" + ")" * n + "\""),
+        ("deep-regex-raw", lambda n: "str matches r#\"" + "(?:" * n + "a" + ")" * n + "\"#"),
+        ("long-regex-alternation", lambda n: "str matches \"" + "|".join("a" + str(i % 10) for i in range(n)) + "\""),
+        ("long-wildcard", lambda n: "str wildcard \"" + "a*" * (n // 2) + "\""),
         ("brackets", lambda n: "[" * n),
     ]
 
@@ -159,7 +164,7 @@ def property_oracle(line, impl_out):
     o = impl_out.strip()
     if o.startswith("(ok"):
         return "ok"
-    m = re.match(r"^\(err ([A-Za-z]+) (\d+) (\d+) (\d+)\)$", o)
+    m = re.match(r"^\(err ([A-Za-z]+) (\d+) (\d+) (\d+) #([0-9a-f]*)\)$", o)
     if not m:
         return "violates: " + o[:80]
     mt = re.search(r" #([0-9a-f]*)\)\s*$", line)
@@ -172,6 +177,10 @@ def property_oracle(line, impl_out):
         return "violates: line %d of %d" % (ln, len(rows))
     if col + n > len(rows[ln]):
         return "violates: columns %d+%d in a line of %d bytes" % (col, n, len(rows[ln]))
+    if bytes.fromhex(m.group(5)) != rows[ln]:
+        return "violates: the line kept by the error is not line %d of the input" % ln
+    if col + n > len(bytes.fromhex(m.group(5))):
+        return "violates: columns outside the line kept by the error"
     return "ok"
 
 
